@@ -7,13 +7,14 @@ cd /verif
 git -C /repo status --short | grep -q . && { echo "/repo is not clean"; exit 1; }
 rm -rf /tmp/seed_evidence_backup; cp -r /verif/evidence /tmp/seed_evidence_backup
 export VERIF_DEV_SKIP_PROOF=1
+export VERIF_FAST=1
 for D in /verif/seeded/${1:-S}*/; do
   ID=$(basename $D)
   PROPS=$(python3 -c "
 import json,sys
 m=json.load(open('$D/meta.json')); print(' '.join(k for k,v in m.get('checks_run',{}).items() if v>0))")
   [ -z "$PROPS" ] && { echo "$ID: no catching check recorded"; continue; }
-  git -C /repo apply $D/patch.diff || { echo "$ID: patch does not apply"; continue; }
+  git -C /repo apply $D/patch.diff 2>/dev/null || git -C /repo apply -C1 $D/patch.diff || { echo "$ID: patch does not apply"; continue; }
   for p in $PROPS; do
     OUT=$(./check $p --tier quick 2>&1 | grep "^VIOLATION")
     N=$(echo "$OUT" | grep -c "^VIOLATION")
